@@ -229,8 +229,14 @@ func (bkt *Bucket) open(bucketID int, home string) (err error) {
 		}
 	}
 	go func() {
+		if utils.VerifOn {
+			utils.Verif("o.bgstart", bkt.ID)
+		}
 		for i := 0; i < bkt.TreeID.Chunk; i++ {
 			bkt.checkHintWithData(i)
+		}
+		if utils.VerifOn {
+			utils.Verif("o.bgdone", bkt.ID)
 		}
 	}()
 
@@ -349,8 +355,14 @@ func (bkt *Bucket) checkAndSet(ki *KeyInfo, v *Payload) error {
 		cmem.DBRL.SetData.AddSize(rec.Payload.CArray.Cap - oldCap)
 	}
 	bkt.writeLock.Lock()
+	if utils.VerifOn {
+		utils.Verif("w.lock", bkt.ID, ki.StringKey, v.Ver)
+	}
 	ok := false
 	defer func() {
+		if utils.VerifOn {
+			utils.Verif("w.unlock", bkt.ID, ki.StringKey, ok)
+		}
 		bkt.writeLock.Unlock()
 		if !ok && v.Ver >= 0 {
 			cmem.DBRL.SetData.SubSizeAndCount(v.CArray.Cap)
@@ -359,6 +371,9 @@ func (bkt *Bucket) checkAndSet(ki *KeyInfo, v *Payload) error {
 	}()
 	oldv := int32(0)
 	payload, pos, err := bkt.get(ki, true)
+	if utils.VerifOn {
+		utils.Verif("w.readold", bkt.ID, ki.StringKey, payload != nil)
+	}
 	if err != nil {
 		return err
 	}
@@ -605,6 +620,10 @@ func (bkt *Bucket) loadGCHistroy() (err error) {
 func (bkt *Bucket) dumpGCHistroy() {
 
 	p := bkt.getGCHistoryPath()
+	if utils.VerifOn {
+		utils.Verif("fs.pre", "nextgc", p)
+		defer utils.Verif("fs.post", "nextgc", p)
+	}
 	fd, err := os.OpenFile(p, os.O_CREATE|os.O_WRONLY|os.O_TRUNC, 0644)
 	if err != nil {
 		logger.Errorf("%v", err)
